@@ -120,6 +120,10 @@ func (r *ndRun) ndNoise(t mkvs.Tree, op *ndOp) error {
 			if err := t.Insert(r.ctx, p[0], val); err != nil {
 				return err
 			}
+		case 2: // the value it already has, written again
+			if err := t.Insert(r.ctx, p[0], val); err != nil {
+				return err
+			}
 		}
 		form++
 	}
